@@ -52,6 +52,9 @@ ARITH = {"P_ADD", "P_SUB", "P_MUL", "P_IADD", "P_ISUB", "P_SCALE", "P_LSCALE", "
 MULTI = {"P_ADD", "P_SUB", "P_MUL", "P_IADD", "P_ISUB", "P_LINCOMB", "O_APPLY", "O_BILIN", "O_LIN", "O_HELD_APPLY",
          "Q_NUMINT", "N_NEW"}
 DEATH_KINDS = {"C03": ARITH, "C08": MULTI}
+# ... and only if the harness had marked the call in progress accordingly:
+# C08: the call had to be refused (grids differ), C03: valid arithmetic call on one grid
+DEATH_NOTE = {"C03": "2", "C08": "1"}
 PLACE = ["place_nested", "place_partial", "place_touch", "place_gap", "place_empty", "place_identical"]
 RELEVANT_PROBES = {
     "C03": ["c03_compared", "mixed_order", "self_iadd", "post_failure_reuse", "alias_scalar"] + PLACE,
@@ -144,7 +147,7 @@ def run_chunk(binary, check, tier, seed, a, b, valgrind=False):
             continue
         d = {"i": begun, "rc": rc, "stderr": err[-6000:], "how": (dead or {}).get("how", "exit")}
         if dead:
-            d.update({k: dead[k] for k in ("task", "op", "lib", "kind") if k in dead})
+            d.update({k: dead[k] for k in ("task", "op", "lib", "kind", "note") if k in dead})
         res["deaths"].append(d)
         cur = begun + 1
     return res
@@ -207,8 +210,9 @@ def replay_plan(binary, planfile_obj, tmpname, valgrind=False, record=False):
         site = (dead or {}).get("kind", "?")
         death = {"how": how, "site": site, "stderr": err[-6000:], "rc": rc}
         classes.add(("C09", "crash-" + how, site))
+        note = (dead or {}).get("note", "0")
         for prop, kinds in DEATH_KINDS.items():
-            if site in kinds:
+            if site in kinds and note == DEATH_NOTE[prop]:
                 classes.add((prop, "crash-" + how, site))
     return classes, h, result, death, (result or {}).get("switches")
 
@@ -568,9 +572,12 @@ def do_check(check, tier, seed):
             if d.get("how") == "startup":
                 machinery_errors.append("worker could not start: %s" % d.get("stderr", "")[-500:])
                 continue
+            if check in DEATH_KINDS and d.get("note", "0") != DEATH_NOTE[check]:
+                aborted_foreign += 1
+                continue
             first_of.setdefault((key, d.get("how", "?"), d.get("kind", "?")), d)
         for (key, how, kind), d in sorted(first_of.items(), key=lambda kv: (kv[0][1], kv[0][2], kv[0][0])):
-            if check in DEATH_KINDS and kind not in DEATH_KINDS[check]:
+            if check in DEATH_KINDS and (kind not in DEATH_KINDS[check] or d.get("note", "0") != DEATH_NOTE[check]):
                 aborted_foreign += 1
                 continue
             target = (check if check in DEATH_KINDS else "C09", "crash-" + how, kind)
